@@ -6,6 +6,7 @@
 #include <set>
 #include <sstream>
 #include "common/props.hpp"
+#include "common/filemodel.hpp"
 using namespace vf;
 
 static std::string jsonStr(const std::string &s) {
@@ -66,6 +67,11 @@ static int batch(const char *listPath, const char *statsPath, const char *propOv
 
 int main(int argc, char **argv) {
     if (argc < 2) { fprintf(stderr, "usage: replay <case> [prop] | replay --batch <list> <stats> [prop]\n"); return 2; }
+    if (std::string(argv[1]) == "--dump") {      // replay --dump <case> <out>: writes the file described by the f* ops of the case
+        if (argc < 4) return 2;
+        std::string t, e; Case c0; if (!readFileText(argv[2], t) || !parseCase(t, c0, e)) return 2;
+        return writeBytes(argv[3], fileBytesOf(c0.ops)) ? 0 : 2;
+    }
     if (std::string(argv[1]) == "--batch") { if (argc < 4) return 2; return batch(argv[2], argv[3], argc >= 5 ? argv[4] : nullptr); }
     std::string text, err; Case c;
     if (!readFileText(argv[1], text) || !parseCase(text, c, err)) { fprintf(stderr, "cannot read case: %s\n", err.c_str()); return 2; }
